@@ -10,6 +10,7 @@
  *         data.ipc_ext.xattr_idx are set to <stale> first: that is what calloc/realloc hands out)
  *   mkbasic <desc>                                      sqfs_inode_make_basic
  *   setx <x> <desc>                                     sqfs_inode_set_xattr_index
+ *   setsz <size> <desc> | setst <location> <desc>       sqfs_inode_set_file_size / sqfs_inode_set_file_block_start (64 bit)
  *   dirl <dpos> <xattr> <parent> <namehex/inum/ref/mode>...
  *         sqfs_dir_writer begin/add_entry/end/create_inode on a directory meta writer that already holds <dpos> bytes,
  *         then sqfs_readdir_state_init + sqfs_meta_reader_readdir (and sqfs_dir_reader_open_dir/read as a cross-check)
@@ -32,6 +33,8 @@
  *         hex; b/c: devno; f: b:st:fi:fo:sz:words or x:st:sz:sp:fi:fo:words = the inode the block processor would have
  *         left), fstree_post_process, sqfs_serialize_fstree on real meta writers (never-shrinking compressor), then a walk
  *         from the root with sqfs_dir_reader_get_root_inode / open_dir / read / get_inode
+ *   treeids <n0> <specs as for tree>...
+ *         the same with the writer's id table already holding the ids 1000 .. 1000+n0-1 (the 65535 limit within reach)
  *
  * Inode description: see Driver/C01.lean.
  */
@@ -357,7 +360,8 @@ static void op_inode(void)
 static void op_conv(int what)
 {
 	sqfs_inode_generic_t *in;
-	size_t used, first = (what == 0 || what == 2) ? 2 : 1;
+	size_t used, first = (what == 1) ? 1 : 2;
+	int rc = 0;
 	if (ntok < first + 7) { puts("bad-op"); return; }
 	in = parse_inode(toks + first, ntok - first, &used);
 	if (!in || used != ntok - first) { puts("bad-op"); free(in); return; }
@@ -369,8 +373,11 @@ static void op_conv(int what)
 		break;
 	case 1: sqfs_inode_make_basic(in); break;
 	case 2: sqfs_inode_set_xattr_index(in, (sqfs_u32)num(toks[1])); break;
+	case 3: rc = sqfs_inode_set_file_size(in, num(toks[1])); break;
+	case 4: rc = sqfs_inode_set_file_block_start(in, num(toks[1])); break;
 	}
-	print_inode(in);
+	if (rc) printf("err %d", -rc);
+	else print_inode(in);
 	putchar('\n');
 	free(in);
 }
@@ -933,7 +940,7 @@ static void walk_dir(sqfs_dir_reader_t *dr, sqfs_inode_generic_t *dir, int depth
 	}
 }
 
-static void op_tree(void)
+static void op_tree(int first, size_t preload)
 {
 	fstree_t fs;
 	fstree_defaults_t def;
@@ -950,7 +957,7 @@ static void op_tree(void)
 	memset(&def, 0, sizeof(def));
 	def.mode = 0755;
 	if (fstree_init(&fs, &def)) { puts("err init"); return; }
-	for (i = 1; i < ntok; ++i) {
+	for (i = first; i < ntok; ++i) {
 		char *s = toks[i], *ph = field(&s, '|'), *t = field(&s, '|'), *perm = field(&s, '|'), *uid = field(&s, '|'),
 		     *gid = field(&s, '|'), *mt = field(&s, '|'), *xa = field(&s, '|'), *ex = field(&s, '|');
 		unsigned char *pb, *eb = NULL; long pl;
@@ -970,11 +977,11 @@ static void op_tree(void)
 		if (t[0] == 'b' || t[0] == 'c') ent->rdev = num(ex);
 		if (t[0] == 'l' || t[0] == 'h') { if (hex_decode_tok(ex, &eb, 1) < 0) { puts("bad-op"); return; } extra = (char *)eb; }
 		paths[i] = (char *)pb; types[i] = t[0]; xattrs[i] = (sqfs_u32)num(xa); extras[i] = ex;
-		if (fstree_add_generic(&fs, ent, extra) == NULL) { printf("add %zu failed\n", i - 1); free(ent); goto out; }
+		if (fstree_add_generic(&fs, ent, extra) == NULL) { printf("add %zu failed\n", i - first); free(ent); goto out; }
 		free(ent); free(eb);
 	}
 	if (fstree_post_process(&fs)) { puts("post failed"); goto out; }
-	for (i = 1; i < ntok; ++i) {
+	for (i = first; i < ntok; ++i) {
 		tree_node_t *nd = fstree_get_node_by_path(&fs, fs.root, paths[i], false, false);
 		if (!nd) { puts("lookup failed"); goto out; }
 		if (types[i] != 'h') nd->xattr_idx = xattrs[i];
@@ -991,6 +998,7 @@ static void op_tree(void)
 	wr.dm = sqfs_meta_writer_create(&memfile, &raw_cmp, SQFS_META_WRITER_KEEP_IN_MEMORY);
 	wr.dirwr = sqfs_dir_writer_create(wr.dm, 0);
 	wr.idtbl = sqfs_id_table_create(0);
+	{ size_t k; sqfs_u16 ix; for (k = 0; k < preload; ++k) sqfs_id_table_id_to_index(wr.idtbl, (sqfs_u32)(1000 + k), &ix); }
 	wr.fs = fs;
 	rc = sqfs_serialize_fstree("tree", &wr);
 	fs = wr.fs;
@@ -1022,7 +1030,7 @@ static void op_tree(void)
 	sqfs_drop(wr.dirwr); sqfs_drop(wr.dm); sqfs_drop(wr.im); sqfs_drop(wr.idtbl);
 out:
 	fstree_cleanup(&fs);
-	for (i = 1; i < ntok; ++i) free(paths[i]);
+	for (i = first; i < ntok; ++i) free(paths[i]);
 	free(paths); free(extras); free(types); free(xattrs);
 }
 
@@ -1037,6 +1045,8 @@ int main(void)
 		else if (!strcmp(toks[0], "mkext") || !strcmp(toks[0], "mkextfix")) op_conv(0);
 		else if (!strcmp(toks[0], "mkbasic")) op_conv(1);
 		else if (!strcmp(toks[0], "setx")) op_conv(2);
+		else if (!strcmp(toks[0], "setsz")) op_conv(3);
+		else if (!strcmp(toks[0], "setst")) op_conv(4);
 		else if (!strcmp(toks[0], "dirl")) op_dirl();
 		else if (!strcmp(toks[0], "meta")) op_meta();
 		else if (!strcmp(toks[0], "table")) op_table();
@@ -1046,7 +1056,8 @@ int main(void)
 		else if (!strcmp(toks[0], "idlimit")) op_idlimit();
 		else if (!strcmp(toks[0], "xattr")) op_xattr();
 		else if (!strcmp(toks[0], "xsets")) op_xsets();
-		else if (!strcmp(toks[0], "tree")) op_tree();
+		else if (!strcmp(toks[0], "tree")) op_tree(1, 0);
+		else if (!strcmp(toks[0], "treeids")) { if (ntok < 2) puts("bad-op"); else op_tree(2, (size_t)num(toks[1])); }
 		else if (!strcmp(toks[0], "export")) op_export();
 		else if (!strcmp(toks[0], "super")) op_super();
 		else puts("bad-op");
